@@ -36,6 +36,8 @@ Plan gen_c03(sk::Rng& r, Tier) {
         else if (c < 68) { op.k = "fetch"; op.a = {static_cast<std::int64_t>(r.below(3))}; }
         else if (c < 84) { op.k = "adv"; op.a = {r.pick<std::int64_t>({10, 999, 1000, 1001, mn * 1000, mn * 1000 + 1, 30000, mx * 1000 - 1, mx * 1000 + 1, mx * 3000})}; }
         else { op.k = "tick"; }
+        // which publisher's manifest of that chunk id: the same id can be issued twice with different content and key material
+        if (op.k == "ingest" || op.k == "announce" || op.k == "replica") { while (op.a.size() < 5) op.a.push_back(0); op.a.push_back(r.chance(1, 4) ? 1 : 0); }
         p.ops.push_back(op);
     }
     return p;
@@ -53,18 +55,27 @@ void exec_c03(const Plan& p, Ctx& ctx) {
     const std::int64_t mn = node->config().min_manifest_ttl.count(), mx = node->config().max_manifest_ttl.count();
 
     // the publisher's real manifests (valid shards and ciphertext); only expires_at is re-written per delivery
-    std::map<int, en::protocol::Manifest> base;
-    std::map<int, en::ChunkData> cipher;
+    // two variants per chunk id: a second publisher issues a manifest for the same id over other content (other key shares, nonce, hash)
+    std::map<int, en::protocol::Manifest> base, base2;
+    std::map<int, en::ChunkData> cipher, cipher2;
+    en::Config cp2 = cp; cp2.identity_seed = 33;
+    auto pub2 = std::make_unique<en::Node>(make_id(0xB3, 0x23), cp2);
     for (int i = 0; i < 3; ++i) {
         base[i] = pub->store_chunk(remote_id(i), make_payload(90 + static_cast<std::size_t>(i) * 7, 3000 + static_cast<std::uint64_t>(i)), seconds(86400 * 300));
         cipher[i] = pub->chunk_store_.get_record(remote_id(i))->data;
+        base2[i] = pub2->store_chunk(remote_id(i), make_payload(77 + static_cast<std::size_t>(i) * 5, 3500 + static_cast<std::uint64_t>(i)), seconds(86400 * 300));
+        cipher2[i] = pub2->chunk_store_.get_record(remote_id(i))->data;
     }
+    // per chunk and variant: latest instant that variant's acceptable manifests allow state derived from THAT variant to live
+    std::map<int, std::array<std::int64_t, 2>> vbound;
+    for (int i = 0; i < 3; ++i) vbound[i] = {INT64_MIN, INT64_MIN};
     // per chunk: latest instant (simulated ns) any acceptable manifest delivered so far allows derived state to live
     std::map<int, std::int64_t> bound;
     for (int i = 0; i < 3; ++i) bound[i] = INT64_MIN;
 
     struct Snap {
         std::int64_t shard_exp = -1, chunk_exp = -1, manifest_exp = -1;
+        int shard_variant = -1, chunk_variant = -1;   // whose key shares / whose ciphertext (0 first publisher, 1 second)
         std::vector<std::int64_t> holders;
         bool pending = false;
         bool operator==(const Snap&) const = default;
@@ -72,10 +83,13 @@ void exec_c03(const Plan& p, Ctx& ctx) {
     auto snapshot = [&](int i) {
         Snap s;
         const auto key = en::chunk_id_to_string(remote_id(i));
-        if (auto it = node->dht_.shard_table_.find(key); it != node->dht_.shard_table_.end()) s.shard_exp = steady_to_sim(it->second.expires_at);
+        if (auto it = node->dht_.shard_table_.find(key); it != node->dht_.shard_table_.end()) {
+            s.shard_exp = steady_to_sim(it->second.expires_at);
+            if (!it->second.shards.empty()) s.shard_variant = (!base2[i].shards.empty() && it->second.shards[0].value == base2[i].shards[0].value) ? 1 : 0;
+        }
         if (auto it = node->dht_.table_.find(key); it != node->dht_.table_.end()) for (auto& h : it->second.holders) s.holders.push_back(steady_to_sim(h.expires_at));
         std::sort(s.holders.begin(), s.holders.end());
-        if (auto it = node->chunk_store_.chunks_.find(key); it != node->chunk_store_.chunks_.end()) s.chunk_exp = steady_to_sim(it->second.expires_at);
+        if (auto it = node->chunk_store_.chunks_.find(key); it != node->chunk_store_.chunks_.end()) { s.chunk_exp = steady_to_sim(it->second.expires_at); s.chunk_variant = it->second.nonce == base2[i].nonce.bytes ? 1 : 0; }
         if (auto it = node->manifest_cache_.find(key); it != node->manifest_cache_.end()) s.manifest_exp = wall_to_sim(it->second.expires_at);
         s.pending = node->pending_chunk_fetches_.count(key) != 0;
         return s;
@@ -91,6 +105,12 @@ void exec_c03(const Plan& p, Ctx& ctx) {
             const std::string about = fmt(" (chunk %d, %s; allowed until t=%.3f s, now t=%.3f s)", i, when, b == INT64_MIN ? -1.0 : b / 1e9, now / 1e9);
             if (late(s.shard_exp)) ctx.violate("C03.key_shares_outlive_manifest", fmt("cached key shares expire at t=%.3f s", s.shard_exp / 1e9) + about);
             if (late(s.chunk_exp)) ctx.violate("C03.replica_outlives_manifest", fmt("the replica copy expires at t=%.3f s", s.chunk_exp / 1e9) + about);
+            // the same, per issuer: key shares (a copy) taken from one publisher's manifest may only live as long as THAT publisher's manifests allow
+            auto late_for = [&](std::int64_t exp, int variant) { if (exp < 0 || variant < 0) return false; const std::int64_t vb = vbound[i][static_cast<std::size_t>(variant)]; return vb == INT64_MIN || exp > vb + slack; };
+            if (late_for(s.shard_exp, s.shard_variant) && !late(s.shard_exp))
+                ctx.violate("C03.key_shares_outlive_their_manifest", fmt("the cached key shares are those of publisher %d's manifest (allowed until t=%.3f s) but expire at t=%.3f s, a lifetime only the other publisher's manifest for this chunk id had", s.shard_variant + 1, vbound[i][static_cast<std::size_t>(s.shard_variant)] == INT64_MIN ? -1.0 : vbound[i][static_cast<std::size_t>(s.shard_variant)] / 1e9, s.shard_exp / 1e9) + about);
+            if (late_for(s.chunk_exp, s.chunk_variant) && !late(s.chunk_exp))
+                ctx.violate("C03.replica_outlives_its_manifest", fmt("the held copy is publisher %d's ciphertext (allowed until t=%.3f s) but expires at t=%.3f s", s.chunk_variant + 1, vbound[i][static_cast<std::size_t>(s.chunk_variant)] == INT64_MIN ? -1.0 : vbound[i][static_cast<std::size_t>(s.chunk_variant)] / 1e9, s.chunk_exp / 1e9) + about);
             for (auto h : s.holders) if (late(h)) { ctx.violate("C03.provider_contact_outlives_manifest", fmt("a provider contact expires at t=%.3f s", h / 1e9) + about); break; }
             if (late(s.manifest_exp) && s.manifest_exp > now + (mx + 1) * kSec) ctx.probe("cached_manifest_keeps_its_far_future_expiry");
         }
@@ -115,7 +135,9 @@ void exec_c03(const Plan& p, Ctx& ctx) {
         }
         // deliver a manifest whose expiry is now + rel
         const std::int64_t rel_ms = std::max<std::int64_t>(op.at(1), -7000000000000LL);
-        auto m = base[i];
+        const int variant = op.at(5) ? 1 : 0;
+        if (variant) ctx.boundary("manifest_of_a_second_publisher_for_the_same_chunk_id");
+        auto m = variant ? base2[i] : base[i];
         std::int64_t exp_sim;
         if (rel_ms > 7000000000000LL) { m.expires_at = std::chrono::system_clock::time_point::max(); exp_sim = INT64_MAX; }
         else { exp_sim = now + rel_ms * kMs; m.expires_at = std::chrono::system_clock::time_point(std::chrono::duration_cast<std::chrono::system_clock::duration>(std::chrono::nanoseconds(sk::kWallEpochNs + exp_sim))); }
@@ -135,6 +157,7 @@ void exec_c03(const Plan& p, Ctx& ctx) {
         if (!surely_rejected) {
             const std::int64_t cap = remaining > mx * kSec ? now + mx * kSec : carried;
             bound[i] = std::max(bound[i], cap);
+            vbound[i][static_cast<std::size_t>(variant)] = std::max(vbound[i][static_cast<std::size_t>(variant)], cap);
         }
         if (op.k == "ingest") {
             const bool ok = node->ingest_manifest(uri);
@@ -149,7 +172,7 @@ void exec_c03(const Plan& p, Ctx& ctx) {
             ctx.probe("announce_delivered");
             sk::sleep_ns(1100 * kMs);  // stay outside the announce throttle (C21's subject)
         } else if (op.k == "replica") {
-            const auto got = node->receive_chunk(uri, cipher[i]);
+            const auto got = node->receive_chunk(uri, variant ? cipher2[i] : cipher[i]);
             ctx.probe(got ? "replica_accepted" : "replica_rejected");
             if (got && surely_rejected) ctx.violate("C03.unacceptable_manifest_replica_stored", fmt("receive_chunk accepted a replica under a manifest with %.3f s left (minimum TTL %lld s)", remaining / 1e9, (long long)mn));
         }
@@ -178,6 +201,7 @@ void exec_c03(const Plan& p, Ctx& ctx) {
     }
     node.reset();
     pub.reset();
+    pub2.reset();
 }
 
 sk::Knobs c03_knobs(const Plan& p) {
@@ -194,7 +218,7 @@ Scenario make_c03() {
     s.technique = "deterministic simulation: a real consumer Node under the simulated steady and wall clocks (advancing in lock-step, optional per-read jitter) receives a real publisher's manifests with re-written expiry (expired, below/at/above the minimum TTL, ordinary, around and beyond the maximum TTL, centuries ahead, time_point::max) through ingest, announce (any advertised TTL, assigned shards, with/without endpoint), replica receipt and local fetch, interleaved with time advances and ticks; after every step key shares, replica, provider contacts and pending fetches are compared with the latest instant any acceptable delivered manifest allows";
     s.real_components = {"Node (ingest_manifest, handle_announce, receive_chunk, fetch_chunk, schedule_assigned_fetch, process_pending_fetches, tick)", "manifest_ttl / enforce_manifest_ttl", "KademliaTable, ChunkStore", "manifest codec"};
     s.stub_components = {"clocks (steady and system) simulated; announces reach the node through its handler entry point; no sockets in this world"};
-    s.assumptions = {"with several manifests for one chunk the bound is the latest instant any acceptable one of them allows (min(expiry, arrival + max TTL))",
+    s.assumptions = {"with several manifests for one chunk the bound is the latest instant any acceptable one of them allows (min(expiry, arrival + max TTL)); key shares and copies are additionally bound by the manifests of the publisher whose key material / ciphertext they are (two publishers issue manifests for the same chunk ids)",
                      "1 s of slack on every comparison and a 1.5 s guard band around the minimum-TTL edge: TTLs are whole seconds and the node reads the clock after the driver",
                      "private tables are read by compiling the harness with -fno-access-control (no hook)"};
     s.rule = "plan = TTL limits, cleanup interval, clock jitter + 4..30 operations (ingest / announce / replica / fetch with one of 20 relative expiries, time advances, ticks); non-trivial = a delivered manifest is expired, at the minimum-TTL edge or beyond the maximum TTL; distinct = plan hash";
